@@ -352,6 +352,10 @@ def run(ctx):
             df, meta = datagen.cat_frame(ctx.rng, outcome=otype, cell=(4, 7))
             df = datagen.add_missing(ctx.rng, df, otype == 'binary')
             meta['missing'] = True
+            if (i // 6) % 2 == 1:
+                # ... written as frequency-weighted rows: total weight = treatment weight x missingness weight x row weight
+                df['w'] = [ctx.rng.randint(1, 3) for _ in range(len(df))]
+                meta['weighted'] = True
         else:
             df, meta = datagen.cat_frame(ctx.rng, outcome=otype)
         # the caller's row labels are not part of the data: default, permuted, gappy (a subset of a cohort), shifted, strings
@@ -388,7 +392,7 @@ def run_cases(ctx, fails, cases):
         ctx.count('strata:%d' % meta['n_strata'])
         ctx.count('index:' + meta.get('index', 'range'))
         ctx.count('weighted rows with a rare-treatment stratum: %s' % bool(meta.get('rare_treatment')))
-        ctx.count('missing outcomes + saturated missing model: %s' % bool(meta.get('missing')))
+        ctx.count('missing outcomes + saturated missing model: %s%s' % (bool(meta.get('missing')), ' (weighted rows)' if meta.get('missing') and meta.get('weighted') else ''))
         ctx.count('displays/diagnostics/plots called around fit(): %s' % out.get('poked'))
         ctx.nontriv([meta, df['Y'].tolist(), df['A'].tolist()])
         ctx.sample({'n': meta['n'], 'arities': meta['arities'], 'outcome': meta['outcome'],
